@@ -30,6 +30,9 @@ CLASS_RULES = {
     "height": [8], "previd": [9], "future": [10], "pastslot": [11], "generator": [14], "mhp": [15], "contradiction": [16],
     "aggcommit": [17], "signature": [18], "abi": [19, 20, 22, 23, 24, 25, 30], "txverify": [23], "setparams": [26], "vhash": [27],
     "nevents": [28], "eventroot": [29], "stateroot": [30],
+    # never produced by the generators (documented in docs/C03.md): generator-key lookup failure, empty generator list (Go panics),
+    # liskbft execution error, more than 2^30 events
+    "genlookup": [12], "panic": [13], "bft": [21],
 }
 
 
@@ -98,7 +101,9 @@ def events(it, evs):
 
 def impl(it, r):
     i = r["impl"]
-    rules = CLASS_RULES.get(i["class"], [98])
+    # an error text the harness does not recognise (e.g. after a message was reworded): still a rejection, rule class unknown —
+    # accept/reject and every observable are compared, the first-failing-rule comparison is skipped for this case (counted in evidence)
+    rules = CLASS_RULES.get(i["class"], list(range(1, 31)) if i["class"].startswith("other:") else [98])
     return "(mkIO %s %s %s %s %d %s %s %d %d)" % (clist(rules), cbool(i["db_same"]), events(it, i["events"]), it.b(i["tip_after"]),
                                                   i["fin_after"], it.n(i["cs_after"]), it.b(i["app_after"]), i["abi_commits"],
                                                   i["abi_reverts"])
@@ -229,6 +234,7 @@ def run(ck):
     ck.extra["traces_validated_against_impl"] = len(recs)
     ck.extra["corpus_cases"] = len(corpus)
     ck.extra["classes"] = sorted(set(r["impl"]["class"] for r in recs))
+    ck.extra["unrecognised_error_texts"] = sum(1 for r in recs if r["impl"]["class"].startswith("other:"))
     aggc = [r for r in recs if r["alt"].startswith("aggregateCommit: genuine")]
     ck.extra["genuine_aggregate_commit_cases"] = {"accepted": sum(1 for r in aggc if r["impl"]["class"] == "ok"),
                                                   "rejected": sum(1 for r in aggc if r["impl"]["class"] != "ok"),
@@ -241,6 +247,9 @@ def run(ck):
                       and any("exactly the height of the next BFT parameters" in r["alt"] for r in aggc)),
                      ("a valid successor that changes the BFT parameters, with the old validatorsHash as an alteration",
                       any(r["alt"] == "validatorsHash of the parameters before the change" for r in recs)),
+                     ("a history block that casts no votes (maxHeightGenerated >= height) followed by headers of the same generator that "
+                      "contradict it (the contradiction verdict is recomputed independently from the window)",
+                      any("casting no votes" in r["alt"] for r in recs) and any(r["impl"]["class"] == "contradiction" for r in recs)),
                      ("a generator-key rotation (same addresses, order, weights) followed by blocks signed with the new and the retired key",
                       any(r["alt"] == "signed with the generator's retired key" for r in recs)
                       and any(r["alt"].startswith("none (valid successor rotating") and r["impl"]["class"] == "ok" for r in recs)),
